@@ -234,6 +234,12 @@ func runC03(r *simkit.Run, c Cfg) {
 	topic := ""
 	if k.topic {
 		topic = "/indexer/ingest/mainnet"
+		if c.Case >= 0 && k.key%2 == 1 || c.Case < 0 && tp.Chance(1, 2, "longTopic") {
+			// a long topic name: the signed payload (CID and topic) is well
+			// over a hundred bytes
+			topic = "/indexer/ingest/" + strings.Repeat("a-long-network-name/", 6) + "mainnet"
+			r.Probe("long-topic")
+		}
 	}
 	pub := w.NewPublisher(PubOpts{Name: "P1", Ident: p1, NAds: 1, Discovery: k.discovery, Hosts: []string{"10.0.0.1:3104"}, Topic: topic})
 	sub := w.NewSubscriber()
